@@ -46,6 +46,7 @@ const oneCallFeature = "test_method_with_exactly_one_call"
 //	assert   one-argument assertion Name, or the chains assertThat(x).isEqualTo(y) / verify(m).run()
 //	helper   call of the same-class helper method Name
 //	neutral  a call that is none of the above (Variant picks the shape)
+//	pair2    two-argument call whose arguments are lambdas / structured expressions (Variant: pairShapes), different or identical (SameArgs)
 //	create   `T v = new T();`
 //	fill     statements without any call
 type Atom struct {
@@ -59,7 +60,10 @@ type Atom struct {
 	OneLine  bool `json:"oneLine,omitempty"`  // the K statements stand on one source line
 	Spaced   int  `json:"spaced,omitempty"`   // 1: blanks around . ( ) , ; of the call statement; 2: also a comment after every dot
 	Args     int  `json:"args,omitempty"`     // helper / peer: number of arguments passed (= parameters of the called helper)
-	SameArgs bool `json:"sameArgs,omitempty"` // helper with two arguments: both argument texts identical
+	SameArgs bool `json:"sameArgs,omitempty"` // helper with two arguments: both argument texts identical; pair2: the second argument is a copy of the first
+	// widening w5 (kind "pair2": a two-argument call whose arguments are lambdas or other structured expressions, Variant = index into pairShapes)
+	Third  bool `json:"third,omitempty"`  // pair2: a third argument (a copy of the first) follows, so the call has three arguments
+	Nested bool `json:"nested,omitempty"` // pair2: the call is itself the argument of assertTrue(..)
 }
 
 // Method kinds: "test" (annotated), "helper" (un-annotated, called by tests of the class),
@@ -228,6 +232,109 @@ var assertionNames = map[string]bool{
 	"shouldBeOpen": true, "checkState": true, "mayNotBeAccessedByAnyLayer": true, "isConsistent": true, "specifiedBy": true,
 	// widening w4
 	"assertThrows": true, "assertNotEquals": true, "assertIterableEquals": true, "verifyNoMoreInteractions": true, "assertNotSame": true,
+	// widening w5
+	"assertAll": true,
+}
+
+// pairShape is one pair of argument texts for a two-argument call (atom kind pair2). The two
+// texts always differ, and they are chosen so that they agree in a part of the text: the
+// parameter list of a lambda, the callee of a call, the created type, the operands, the tail.
+// `#` stands for the atom's running number, `#+` for the next number, `{name}` for the
+// assertion name spelled as the file's import style asks. CallsA / CallsB name the calls
+// written inside the texts ("new T" is a creation).
+type pairShape struct {
+	Family string // "lambda" or "expr"
+	Label  string
+	A, B   string
+	CallsA []string
+	CallsB []string
+}
+
+var pairShapes = []pairShape{
+	// both arguments are lambdas
+	{"lambda", "same_parameter_other_body", "e -> e.getName()", "e -> e.getSize()", []string{"getName"}, []string{"getSize"}},
+	{"lambda", "same_parameter_other_body", "() -> service.load(#)", "() -> service.total()", []string{"load"}, []string{"total"}},
+	{"lambda", "same_parameters_no_call", "(a, b) -> a", "(a, b) -> b", nil, nil},
+	{"lambda", "typed_parameter_other_body", "(Item e) -> e.getName()", "(Item e) -> e.getSize()", []string{"getName"}, []string{"getSize"}},
+	{"lambda", "body_prefix_of_the_other", "e -> e.getSize()", "e -> e.getSize() + 1", []string{"getSize"}, []string{"getSize"}},
+	{"lambda", "block_bodies", "() -> { service.load(#); }", "() -> { service.load(#+); }", []string{"load"}, []string{"load"}},
+	{"lambda", "nested_lambdas", "a -> b -> a", "a -> b -> b", nil, nil},
+	{"lambda", "other_parameter_name_same_call", "a -> a.getName()", "b -> b.getName()", []string{"getName"}, []string{"getName"}},
+	{"lambda", "parameter_with_and_without_parentheses", "e -> e.getName()", "(e) -> e.getName()", []string{"getName"}, []string{"getName"}},
+	{"lambda", "assertions_in_the_bodies", "() -> {assertFalse}(actual#)", "() -> {assertNull}(actual#)", []string{"assertFalse"}, []string{"assertNull"}},
+	{"lambda", "plain_argument_and_lambda", "key", "k -> service.load(#)", nil, []string{"load"}},
+	// other structured expressions that agree in a part of their text
+	{"expr", "same_callee_other_argument", "service.load(#)", "service.load(#+)", []string{"load"}, []string{"load"}},
+	{"expr", "creations_of_one_type", "new Order(#)", "new Order(#+)", []string{"new Order"}, []string{"new Order"}},
+	{"expr", "casts", "(int) limit", "(long) limit", nil, nil},
+	{"expr", "array_elements", "names[0]", "names[1]", nil, nil},
+	{"expr", "conditionals", "limit > 1 ? expected : actual", "limit > 2 ? expected : actual", nil, nil},
+	{"expr", "same_operands_other_operator", "limit + 1", "limit - 1", nil, nil},
+	{"expr", "swapped_operands", "limit + 1", "1 + limit", nil, nil},
+	{"expr", "same_tail", "\"a\" + key", "\"b\" + key", nil, nil},
+	{"expr", "field_with_and_without_this", "this.limit", "limit", nil, nil},
+	{"expr", "with_and_without_parentheses", "(expected)", "expected", nil, nil},
+	{"expr", "class_literals", "Order.class", "Invoice.class", nil, nil},
+	{"expr", "call_chains", "expected.trim().length()", "expected.trim().hashCode()", []string{"trim", "length"}, []string{"trim", "hashCode"}},
+	{"expr", "string_and_number", "\"1\"", "1", nil, nil},
+}
+
+func shapeOf(a Atom) pairShape {
+	n := a.Variant % len(pairShapes)
+	if n < 0 {
+		n += len(pairShapes)
+	}
+	return pairShapes[n]
+}
+
+// pairInner lists the calls written inside the arguments of one pair2 statement.
+func pairInner(a Atom) []string {
+	sh := shapeOf(a)
+	out := append([]string{}, sh.CallsA...)
+	if a.SameArgs {
+		out = append(out, sh.CallsA...)
+	} else {
+		out = append(out, sh.CallsB...)
+	}
+	if a.Third {
+		out = append(out, sh.CallsA...)
+	}
+	return out
+}
+
+// pairAssertions lists the assertion names one pair2 statement calls (callee, wrapper, bodies).
+func pairAssertions(a Atom) []string {
+	var out []string
+	if assertionNames[a.Name] {
+		out = append(out, a.Name)
+	}
+	if a.Nested {
+		out = append(out, "assertTrue")
+	}
+	for _, n := range pairInner(a) {
+		if assertionNames[n] {
+			out = append(out, n)
+		}
+	}
+	return out
+}
+
+var bracedName = regexp.MustCompile(`\{(\w+)\}`)
+
+// pairText renders the argument list of a pair2 statement.
+func pairText(a Atom, k int, q func(string) string) string {
+	sh := shapeOf(a)
+	args := []string{sh.A, sh.B}
+	if a.SameArgs {
+		args[1] = sh.A
+	}
+	if a.Third {
+		args = append(args, sh.A)
+	}
+	text := strings.Join(args, ", ")
+	text = strings.ReplaceAll(text, "#+", fmt.Sprint(k+1))
+	text = strings.ReplaceAll(text, "#", fmt.Sprint(k))
+	return bracedName.ReplaceAllStringFunc(text, func(m string) string { return q(m[1 : len(m)-1]) })
 }
 
 // annotations that are neither @Test nor @Ignore. The first four go with anything; the others
@@ -476,6 +583,21 @@ func (w *jw) atom(depth int, a Atom, style int, t *methodTruth) {
 			}
 			n := emit(text)
 			t.Calls = append(t.Calls, callRec{Name: name, Line: n})
+		case "pair2":
+			text := fmt.Sprintf("%s(%s)", callee(a.Name, q), pairText(a, k, q))
+			if a.Nested {
+				text = q("assertTrue") + "(" + text + ")"
+				t.Calls = append(t.Calls, callRec{Name: "assertTrue", Assertion: true})
+			}
+			n := emit(text + ";")
+			if a.Nested {
+				t.Calls[len(t.Calls)-1].Line = n
+			}
+			// a call with three arguments is no two-argument call, whatever its arguments are
+			t.Calls = append(t.Calls, callRec{Name: a.Name, Line: n, Assertion: assertionNames[a.Name], Same2: a.SameArgs && !a.Third})
+			for _, inner := range pairInner(a) {
+				t.Calls = append(t.Calls, callRec{Name: inner, Line: n, Assertion: assertionNames[inner], Creation: strings.HasPrefix(inner, "new ")})
+			}
 		case "create":
 			n := w.ln(d, fmt.Sprintf("Order order%d = new Order();", k))
 			t.Calls = append(t.Calls, callRec{Name: "new Order", Line: n, Creation: true})
@@ -581,6 +703,8 @@ func callee(name string, q func(string) string) string {
 		return "Math.max"
 	case "equals":
 		return "Objects.equals"
+	case "toMap":
+		return "Collectors.toMap"
 	}
 	return "service." + name
 }
@@ -773,6 +897,11 @@ func render(c Case, f File) fileTruth {
 				for _, a := range m.Atoms {
 					if assertionNames[a.Name] {
 						used[a.Name] = true
+					}
+					if a.Kind == "pair2" {
+						for _, n := range pairAssertions(a) {
+							used[n] = true
+						}
 					}
 				}
 			}
@@ -1460,6 +1589,11 @@ func classify(c Case, truths []fileTruth, root string, mode string) pbt.Verdict 
 					labels["unannotated_method_named_like_a_test"] = true
 				}
 				if m.Spec.Kind == "helper" {
+					for _, a := range m.Spec.Atoms {
+						if a.Kind == "pair2" {
+							labels["structured_arguments_"+shapeOf(a).Family+"_inside_helper"] = true
+						}
+					}
 					if m.Spec.Params > 0 {
 						labels["helper_with_parameters"] = true
 					}
@@ -1550,6 +1684,32 @@ func classify(c Case, truths []fileTruth, root string, mode string) pbt.Verdict 
 					labels[fmt.Sprintf("helper_called_with_%d_arguments", a.Args)] = true
 					if a.Args == 2 && a.SameArgs {
 						labels["helper_called_with_identical_arguments"] = true
+					}
+				case a.Kind == "pair2":
+					sh := shapeOf(a)
+					relation := "different"
+					if a.SameArgs {
+						relation = "identical"
+					}
+					if sh.Family == "lambda" {
+						labels["two_lambda_arguments_"+relation] = true
+						if !a.SameArgs {
+							labels["lambdas_"+sh.Label] = true
+						}
+					} else {
+						labels["two_structured_arguments_"+relation] = true
+						if !a.SameArgs {
+							labels["arguments_"+sh.Label] = true
+						}
+					}
+					if a.Third {
+						labels["three_arguments_first_two_structured"] = true
+					}
+					if a.Nested {
+						labels["two_argument_call_as_argument_of_assertTrue"] = true
+					}
+					if a.K >= 5 && assertionNames[a.Name] {
+						labels["structured_two_argument_assertion_5+_times"] = true
 					}
 				case a.Kind == "mock":
 					mockTypes[mockType(a.Name)] += a.K
@@ -1898,7 +2058,7 @@ func genAtom(t *rapid.T, helpers []string, inHelper bool, helperParams map[strin
 	}
 	// audit widening: layout of the K statements
 	switch a.Kind {
-	case "print", "sleep", "same2", "diff2", "assert", "neutral", "mock", "helper":
+	case "print", "sleep", "same2", "diff2", "assert", "neutral", "mock", "helper", "pair2":
 		if a.K >= 2 && rare(t, "oneLine", 5) {
 			a.OneLine, a.Split = true, false
 		}
@@ -1923,6 +2083,13 @@ func genAtomCore(t *rapid.T, helpers []string, inHelper bool, helperParams map[s
 		return Atom{Kind: "mock", Name: rapid.SampledFrom(mockFields).Draw(t, "mockField"), K: genMultiplicity(t, "k", true)}
 	}
 	if inHelper {
+		if rare(t, "helperPair2", 7) {
+			// widening w5: a two-argument call with two different lambdas / structured expressions
+			// inside a called helper (never identical ones: whose finding that would be is open)
+			a := Atom{Kind: "pair2", K: rapid.IntRange(1, 2).Draw(t, "k"), Variant: rapid.IntRange(0, len(pairShapes)-1).Draw(t, "pairShape")}
+			a.Name = rapid.SampledFrom([]string{"toMap", "assertEquals", "register", "assertAll"}).Draw(t, "pairCallee")
+			return a
+		}
 		switch rapid.IntRange(0, 4).Draw(t, "helperAtom") {
 		case 0:
 			return Atom{Kind: "neutral", K: rapid.IntRange(1, 2).Draw(t, "k"), Variant: rapid.SampledFrom([]int{0, 6, 1, 8, 9, 12}).Draw(t, "variant")}
@@ -1937,7 +2104,7 @@ func genAtomCore(t *rapid.T, helpers []string, inHelper bool, helperParams map[s
 		}
 		return Atom{Kind: "assert", K: rapid.IntRange(1, 2).Draw(t, "k"), Name: name}
 	}
-	kind := rapid.SampledFrom([]string{"assert", "assert", "diff2", "print", "sleep", "same2", "neutral", "create", "fill", "helper"}).Draw(t, "atomKind")
+	kind := rapid.SampledFrom([]string{"assert", "assert", "diff2", "print", "sleep", "same2", "neutral", "create", "fill", "helper", "pair2"}).Draw(t, "atomKind")
 	a := Atom{Kind: kind, K: 1}
 	switch kind {
 	case "assert":
@@ -2006,6 +2173,20 @@ func genAtomCore(t *rapid.T, helpers []string, inHelper bool, helperParams map[s
 		if rare(t, "bigK", 30) {
 			a.K = rapid.SampledFrom([]int{9, 17, 33, 65}).Draw(t, "bigKValue") // a body with more than 8 / 16 / 32 / 64 calls
 		}
+	case "pair2":
+		// widening w5: both arguments lambdas (the first shapes) or other structured expressions
+		a.Variant = rapid.IntRange(0, len(pairShapes)-1).Draw(t, "pairShape")
+		if rare(t, "neutral2", 2) {
+			a.Name = rapid.SampledFrom(append([]string{"toMap"}, neutral2Names...)).Draw(t, "name2")
+		} else {
+			a.Name = rapid.SampledFrom(append([]string{"assertAll"}, assert2Names...)).Draw(t, "assert2")
+		}
+		a.K = genMultiplicity(t, "k", true)
+		a.SameArgs = rare(t, "sameArgs", 2)
+		a.Third = rare(t, "thirdArgument", 7)
+		a.Nested = rare(t, "nestedInAssertTrue", 7)
+		a.Wrap = genWrap(t)
+		a.Split = rare(t, "split", 5)
 	case "create":
 		a.K = rapid.IntRange(1, 2).Draw(t, "k")
 	case "fill":
@@ -2052,6 +2233,11 @@ func callsOf(atoms []Atom, helperCallCount map[string]int) (direct, total int) {
 			if a.Name == "assertThat" || a.Name == "verify" || a.Name == "assertThrows" {
 				per = 2
 			}
+		case "pair2":
+			per = 1 + len(pairInner(a))
+			if a.Nested {
+				per++
+			}
 		}
 		direct += per * a.K
 		total += per * a.K
@@ -2063,7 +2249,7 @@ func callsOf(atoms []Atom, helperCallCount map[string]int) (direct, total int) {
 }
 
 func isAssertAtom(a Atom) bool {
-	return (a.Kind == "assert" || a.Kind == "same2" || a.Kind == "diff2") && assertionNames[a.Name]
+	return (a.Kind == "assert" || a.Kind == "same2" || a.Kind == "diff2" || a.Kind == "pair2") && assertionNames[a.Name]
 }
 
 // fixTestAtoms keeps a test method inside the part of the domain where the statement gives
@@ -2086,6 +2272,13 @@ func fixTestAtoms(atoms []Atom, helperAtoms map[string][]Atom) []Atom {
 	direct, inlined := map[string]int{}, map[string]int{}
 	count := func(into map[string]int, list []Atom, times int) {
 		for _, a := range list {
+			if a.Kind == "pair2" {
+				// callee, wrapper and the assertions written inside the arguments
+				for _, n := range pairAssertions(a) {
+					into[n] += a.K * times
+				}
+				continue
+			}
 			if isAssertAtom(a) {
 				into[a.Name] += a.K * times
 				if a.Name == "assertThat" {
@@ -2607,7 +2800,7 @@ func genCLICase(t *rapid.T) Case {
 
 func init() {
 	pbt.SetProperty("C11")
-	pbt.Describe("Trees of 1-3 JUnit-style test classes and 0-2 production classes, flat (FooTest.java / FooTests.java next to production files, optionally in sub-directories) or Maven style ([module/]src/test/java/<package dirs>/ with class names that need not end in Test, production under src/main/java); the name of a test class may recur in another package and directory. Test methods are assembled from evidence atoms with multiplicities: System.out.println/print/printf, Thread.sleep (also inside try/catch/finally/if/else/for/while/switch/synchronized blocks and lambda bodies, also with the argument list continued on the next line), two-argument calls with identical / different argument texts (assertion and non-assertion callees), one assertion repeated k times (k around the limit: 3,4,5,6; in one run or in two places of the body), several different assertions that only together reach the limit, a non-assertion repeated five times, chains assertThat(x).isEqualTo(y) and verify(m).run(), assertThrows around a lambda, calls of same-class helpers written helper(), this.helper() or OwnClass.helper() (whose bodies hold assertions, neutral calls and creations; also tests that do nothing but call two or three helpers), neutral calls that resemble the patterns (System.err.println, System.out.format/flush, TimeUnit.SECONDS.sleep, WorkerThread.sleep, logger.print, dispatch/inspect whose names contain is/spec, three-argument calls with two equal arguments, a call named like a helper on another object), creations first/last, plain statements, comments and string literals quoting the patterns; a test method may be a copy of the previous one; @Test / @Ignore alone or together in both orders, with or without arguments, on their own lines or on the declaration line, optionally with a third annotation (@Deprecated, @SuppressWarnings, @Category, @DisplayName) before, between or after them; static-import, explicit-static-import and qualified assertion styles; class-level @RunWith / @Ignore / extends; LF or CRLF. Un-annotated methods (also with lifecycle annotations or look-alikes such as @ParameterizedTest, @TestFactory, @IgnoreIf, @Ignored, @TestOnly), production classes (also named TestXSupport, XTester, XTestBase, ContestX or lying in test/, src/testing/java, src/test/resources, src/test/javax) carry the same atoms, production classes also methods annotated @Test/@Ignore. A line-tracking printer gives the ground-truth lines. Oracle: the multiset of findings by the statement's rules, each compared by type and file, plus the call's line for RedundantPrintTest/SleepyTest, plus the owning test method (reported line anywhere between its first annotation and its closing brace) for EmptyTest/RedundantAssertionTest/UnknownTest/DuplicateAssertTest; no finding may name a non-test file; a crash is a violation. Entry points: the cmd/tbs.go pipeline through the API, with TbsApp.AnalysisPath called a second time on the same class nodes and, in one case of four, the whole pipeline run again in the same process without reset (every result judged); and `coca tbs [-p DIR] [-s]` (tbs.json as a list or grouped by type; DIR absolute, relative, ./DIR, DIR/ or the default . from inside; the printed count and table, where present, must agree with tbs.json). Audit widening: (names) test methods named from a word list (shouldX, testX, verifiesX, checkX, isX, assertsX, sleepN, printlnN, ignoreN, one letter, $ _, non-ASCII, ~100 characters), un-annotated methods with JUnit-3-like names (testLegacy_N, shouldNotRun_N), helper names that are prefixes / extensions / case variants of each other (prepare, prepareFixture, prepareFixtures, preparefixture, PrepareFixture) or hold $ _ digits and non-ASCII letters, class names from a word list (ThreadTest, SystemTest, AssertTest, IgnoreTest, OrderTestDataTest, TestDataTest, non-ASCII, $ and _, one letter, ~90 characters), production files whose suffix differs in case only (Ordertest.java, Ordertests.java, OrderTEST.java), directories testdata, it/TestData, test-data, `unit tests` (API only), ünit, production directories src/integration-test/java, src/tests/java, test/java, src/test, src/test/Java, the default package in the Maven layout; (layout) the k statements of an atom on one source line, a whole method (annotations to closing brace) on one line, the opening brace on its own line, blanks around every . ( ) , ; of a call statement and comments after its dots, a documentation comment quoting the patterns before the annotations, a block or line comment between annotations and declaration, leading blank lines, no final newline, a comment line of 5000 and a string literal of 70000 characters, every import twice, unused imports (java.lang.Thread, java.io.PrintStream, wildcards); (spellings) @Test(), @Test(expected = X.class), @Ignore(value = \"..\"), a blank after the @, the annotations written with their package (@org.junit.Test, @org.junit.Ignore), modifiers before the annotations (public @Test void f()), two modifiers (public final, synchronized public), a parameter on a test method (TestInfo info), `coca tbs` options spelled --path DIR / --path=DIR / -p=DIR and --sort / --sort=true / -s=true; (structure) test classes without any test method, with 9 and 17 test methods, trees with 9 and 17 test classes, bodies with 9 / 17 / 33 / 65 calls, helpers with one or two int parameters (called with textually identical or different arguments: a two-argument helper call with identical arguments is a two-argument call like any other), a package-info.java among the Maven test sources, copies of a test class's text under names that are no Java source names (X.java.bak, X.java~, X.java.orig, X.txt, X.javax, X.kt, Xjava, X.JAVA), a .gitignore whose patterns match no file of the tree; (evidence) System.out.printf and Thread.sleep with two identical arguments (both findings), Thread.sleep(ms, ns), a call as the argument of a print / sleep, argument texts with a comma inside (\"a, b\", Arrays.asList(1, 2)), second argument a prefix of the first, assertThat(x, is(y)), one assertion name verifyAll called 5-6 times through two fields of one class (one assertion method: DuplicateAssertTest) or on fields of two classes (two methods: none), a same-named helper of ANOTHER test class of the tree called on a field (no helper of the same class), look-alikes out.println / this.out.printf / writer.print on fields, Thread.yield, reassert, unverified; (histories) in one case of five another tree (same layout; its first class has name, package and directory of the judged tree's first test class but other methods) is analysed first - in the same process without reset (API), by an earlier `coca tbs` run in the same working directory (CLI) - and in one CLI case of five the same tree is analysed first with the other setting of -s. Non-trivial = some test method with >= 2 atom kinds, or a multiplicity 4/5/6, or both annotations; distinct = layout + per-file atom sequences.",
+	pbt.Describe("Trees of 1-3 JUnit-style test classes and 0-2 production classes, flat (FooTest.java / FooTests.java next to production files, optionally in sub-directories) or Maven style ([module/]src/test/java/<package dirs>/ with class names that need not end in Test, production under src/main/java); the name of a test class may recur in another package and directory. Test methods are assembled from evidence atoms with multiplicities: System.out.println/print/printf, Thread.sleep (also inside try/catch/finally/if/else/for/while/switch/synchronized blocks and lambda bodies, also with the argument list continued on the next line), two-argument calls with identical / different argument texts (assertion and non-assertion callees), one assertion repeated k times (k around the limit: 3,4,5,6; in one run or in two places of the body), several different assertions that only together reach the limit, a non-assertion repeated five times, chains assertThat(x).isEqualTo(y) and verify(m).run(), assertThrows around a lambda, calls of same-class helpers written helper(), this.helper() or OwnClass.helper() (whose bodies hold assertions, neutral calls and creations; also tests that do nothing but call two or three helpers), neutral calls that resemble the patterns (System.err.println, System.out.format/flush, TimeUnit.SECONDS.sleep, WorkerThread.sleep, logger.print, dispatch/inspect whose names contain is/spec, three-argument calls with two equal arguments, a call named like a helper on another object), creations first/last, plain statements, comments and string literals quoting the patterns; a test method may be a copy of the previous one; @Test / @Ignore alone or together in both orders, with or without arguments, on their own lines or on the declaration line, optionally with a third annotation (@Deprecated, @SuppressWarnings, @Category, @DisplayName) before, between or after them; static-import, explicit-static-import and qualified assertion styles; class-level @RunWith / @Ignore / extends; LF or CRLF. Un-annotated methods (also with lifecycle annotations or look-alikes such as @ParameterizedTest, @TestFactory, @IgnoreIf, @Ignored, @TestOnly), production classes (also named TestXSupport, XTester, XTestBase, ContestX or lying in test/, src/testing/java, src/test/resources, src/test/javax) carry the same atoms, production classes also methods annotated @Test/@Ignore. A line-tracking printer gives the ground-truth lines. Oracle: the multiset of findings by the statement's rules, each compared by type and file, plus the call's line for RedundantPrintTest/SleepyTest, plus the owning test method (reported line anywhere between its first annotation and its closing brace) for EmptyTest/RedundantAssertionTest/UnknownTest/DuplicateAssertTest; no finding may name a non-test file; a crash is a violation. Entry points: the cmd/tbs.go pipeline through the API, with TbsApp.AnalysisPath called a second time on the same class nodes and, in one case of four, the whole pipeline run again in the same process without reset (every result judged); and `coca tbs [-p DIR] [-s]` (tbs.json as a list or grouped by type; DIR absolute, relative, ./DIR, DIR/ or the default . from inside; the printed count and table, where present, must agree with tbs.json). Audit widening: (names) test methods named from a word list (shouldX, testX, verifiesX, checkX, isX, assertsX, sleepN, printlnN, ignoreN, one letter, $ _, non-ASCII, ~100 characters), un-annotated methods with JUnit-3-like names (testLegacy_N, shouldNotRun_N), helper names that are prefixes / extensions / case variants of each other (prepare, prepareFixture, prepareFixtures, preparefixture, PrepareFixture) or hold $ _ digits and non-ASCII letters, class names from a word list (ThreadTest, SystemTest, AssertTest, IgnoreTest, OrderTestDataTest, TestDataTest, non-ASCII, $ and _, one letter, ~90 characters), production files whose suffix differs in case only (Ordertest.java, Ordertests.java, OrderTEST.java), directories testdata, it/TestData, test-data, `unit tests` (API only), ünit, production directories src/integration-test/java, src/tests/java, test/java, src/test, src/test/Java, the default package in the Maven layout; (layout) the k statements of an atom on one source line, a whole method (annotations to closing brace) on one line, the opening brace on its own line, blanks around every . ( ) , ; of a call statement and comments after its dots, a documentation comment quoting the patterns before the annotations, a block or line comment between annotations and declaration, leading blank lines, no final newline, a comment line of 5000 and a string literal of 70000 characters, every import twice, unused imports (java.lang.Thread, java.io.PrintStream, wildcards); (spellings) @Test(), @Test(expected = X.class), @Ignore(value = \"..\"), a blank after the @, the annotations written with their package (@org.junit.Test, @org.junit.Ignore), modifiers before the annotations (public @Test void f()), two modifiers (public final, synchronized public), a parameter on a test method (TestInfo info), `coca tbs` options spelled --path DIR / --path=DIR / -p=DIR and --sort / --sort=true / -s=true; (structure) test classes without any test method, with 9 and 17 test methods, trees with 9 and 17 test classes, bodies with 9 / 17 / 33 / 65 calls, helpers with one or two int parameters (called with textually identical or different arguments: a two-argument helper call with identical arguments is a two-argument call like any other), a package-info.java among the Maven test sources, copies of a test class's text under names that are no Java source names (X.java.bak, X.java~, X.java.orig, X.txt, X.javax, X.kt, Xjava, X.JAVA), a .gitignore whose patterns match no file of the tree; (evidence) System.out.printf and Thread.sleep with two identical arguments (both findings), Thread.sleep(ms, ns), a call as the argument of a print / sleep, argument texts with a comma inside (\"a, b\", Arrays.asList(1, 2)), second argument a prefix of the first, assertThat(x, is(y)), one assertion name verifyAll called 5-6 times through two fields of one class (one assertion method: DuplicateAssertTest) or on fields of two classes (two methods: none), a same-named helper of ANOTHER test class of the tree called on a field (no helper of the same class), look-alikes out.println / this.out.printf / writer.print on fields, Thread.yield, reassert, unverified; (histories) in one case of five another tree (same layout; its first class has name, package and directory of the judged tree's first test class but other methods) is analysed first - in the same process without reset (API), by an earlier `coca tbs` run in the same working directory (CLI) - and in one CLI case of five the same tree is analysed first with the other setting of -s. Widening after seeded change C11-r5 (two-argument calls with structured arguments): two-argument calls, with assertion callees (assertEquals .. assertNotSame, assertAll) and others (Collectors.toMap, registry.put, Math.max, Objects.equals, service.register), whose two arguments are both lambdas - the same parameter list with different bodies (e -> e.getName() / e -> e.getSize(), () -> .. / () -> .., (a, b) -> a / (a, b) -> b, (Item e) -> .., block bodies, nested lambdas a -> b -> a / a -> b -> b, one body a prefix of the other, assertions inside the bodies), the same body under another parameter name or with the parameter in parentheses, a plain argument next to a lambda - or other structured expressions that agree in a part of their text (calls of one callee with other arguments, creations of one type, casts, elements of one array, conditionals, the same operands with another operator or swapped, the same tail, this.limit / limit, (expected) / expected, class literals, call chains with a common front, \"1\" / 1); each pair written with two different texts (no finding) or with the first text twice (textually identical: RedundantAssertionTest), once or k times (k around the limit), optionally followed by a third argument (a three-argument call: no finding) or as the argument of assertTrue(..), in every block kind, split over two lines, spaced out, on one line; the calls written inside the argument texts count as calls (and assertions) of the method; called helpers hold such calls with different arguments only. Non-trivial = some test method with >= 2 atom kinds, or a multiplicity 4/5/6, or both annotations; distinct = layout + per-file atom sequences.",
 		"assertion names are clear positives (assert*, verify*, isEqualTo, one name per other prefix of the tool's list); other callee names do not start with the tool's prefixes (assert, should, check, maynotbe, is, spec, verify)",
 		"called helpers contain only assertions, neutral calls, creations and plain statements (prints, sleeps and identical-argument calls inside a called helper are not generated: the statement does not say whose finding they would be); helper inlining is one level; helpers are not overloaded; two classes with the same fully-qualified name in one tree are not generated",
 		"an assertion name never reaches 5 occurrences only through helper bodies; a method annotated @Ignore alone always makes a call; creations appear only next to at least one method call",
